@@ -14,7 +14,7 @@ import (
 )
 
 func init() {
-	Register(&Profile{Name: "determinism-mem", Prop: "C17", Weight: 10, Quick: 5000, Thorough: 120000, Fn: determinismMem})
+	Register(&Profile{Name: "determinism-mem", Prop: "C17", Weight: 10, Quick: 3500, Thorough: 120000, Fn: determinismMem})
 	Register(&Profile{Name: "determinism-real", Prop: "C17", Weight: 3, Quick: 400, Thorough: 8000, Fn: determinismReal})
 	SetMeta("C17", &Meta{
 		Level: "exploration",
@@ -91,7 +91,7 @@ func determinismMem(r *Run) {
 		}
 	}
 	paths := w.FilePaths()
-	if t.Bool(1, 10, "megabyte-file") {
+	if t.Bool(1, 25, "megabyte-file") {
 		// buffers of a megabyte and more (allocation strategies tend to
 		// change with size)
 		size := (1 << 20) + t.Draw(1<<19, "mb-size")
